@@ -107,6 +107,17 @@ func zzC13CropParamFormats(organs, stages, variant int) {
 			g.WORG[k] = vFloat("old_worg", k)
 		}
 		g.INTWICK = NewDualType(0, 1)
+		// what the previous crop of the rotation (six stages, five organs) left in the run state
+		g.PHYLLO, g.VERNTAGE, g.TROOTSUM = vFloat("prev_phyllo"), vFloat("prev_verntage"), vFloat("prev_trootsum")
+		for s := 0; s < 6; s++ {
+			g.SUM[s], g.DEV[s], g.TSUM[s] = vFloat("prev_sum", s), vInt("prev_dev", s), vFloat("prev_tsum", s)
+			for i := 0; i < 5; i++ {
+				g.PRO[s][i], g.DEAD[s][i] = vFloat("prev_pro", s, i), vFloat("prev_dead", s, i)
+			}
+		}
+		for i := 0; i < 5; i++ {
+			g.WDORG[i] = vFloat("prev_wdorg", i)
+		}
 		return g, l
 	}
 	g1, l1 := mk()
@@ -132,6 +143,15 @@ func zzC13CropParamFormats(organs, stages, variant int) {
 			ss = ss && g1.PRO[s][i] == g2.PRO[s][i] && g1.DEAD[s][i] == g2.DEAD[s][i]
 		}
 		vAssert("C13.cropparam.same_stage_parameters", ss)
+	}
+	// the whole run state and crop module state agree, whatever the previous crop left behind (every field, also
+	// those a reader resets, derives or leaves alone)
+	vAssert("C13.cropparam.same_state_in_every_field", vSameState(l1, l2) && vSameState(g1, g2, "Session"))
+	if !g1.DAUERKULT {
+		for s := 0; s < 6; s++ {
+			vAssert("C09.sowing.no_phenology_date_of_the_previous_crop_survives", g1.DEV[s] == 0 && g2.DEV[s] == 0)
+			vAssert("C09.sowing.no_temperature_sum_of_the_previous_crop_survives", g1.SUM[s] == 0 && g2.SUM[s] == 0)
+		}
 	}
 	// anchor: values are the written ones
 	vAssert("C13.cropparam.values_are_the_written_ones", g1.MAXAMAX == vFloat("maxamax") && g1.VELOC == vFloat("rtveloc")/200 && g1.TSUM[0] == vFloat("tsum", 0) &&
